@@ -66,6 +66,10 @@ def jobs(tier):
         for thr in range(2):
             js.append(Job('history-c%d-t%d' % (cap, thr), 'h_history', dict(steps=steps, nreq=4 if th else 3),
                           dict(o, pin={'max_in_flight': cap, 'orphan_threshold': thr})))
+    if th:
+        # general pre-emption (thorough): any other-thread event at any lock acquire/release while no lock is held
+        js.append(Job('any-race', 'h_history', dict(steps=4, nreq=3, race='any'),
+                      dict(o, pin={'max_in_flight': 0, 'orphan_threshold': 0}, max_paths=400000)))
     # one pre-emption: the late response is delivered while _on_timeout is between popping the request and
     # recording the stream as orphaned (before it takes the connection lock)
     for cap in range(2):
